@@ -61,7 +61,7 @@ def gen_ids(tier, seed, effort=1):
 
 def run(rep, tier, seed, model_ok=True, effort=1):
     rep.rule = ("exhaustive over all BUILD ids of 1..%d digits (incl. zero padded) + seeded random ids of 5..12 digits; "
-                "each bumped once through v2version.incr(id, 'BUILD') and lexid.next_id; chains of successive bumps; "
+                "each bumped once through v2version.incr(id, 'BUILD') and lexid.next_id; chains of successive bumps; `bumpver test` on patterns with a BUILD part under random flag sets (--pin-increments, --tag, --major/--minor, --pin-date/--date); "
                 "non-trivial = distinct id whose bump succeeds" % (4 if tier == "quick" else 5))
     items, meta = [], []
     seen = set()
@@ -98,6 +98,7 @@ def run(rep, tier, seed, model_ok=True, effort=1):
         rep.count("chain-steps", len(out))
         chain_items.append("(%s,%d%%nat,%s)" % (cs(start), len(out), cs(out[-1]) if out else "[]"))
         rep.sample(dict(chain_start=start, steps=len(out), last=out[-1] if out else None), limit=8)
+    cli_stream(rep, common.rng(seed, "c17-cli"), (60 if tier == "quick" else 1500) * effort)
     if model_ok:
         bad, errs = common.coq_eval(
             "c17", "From Coq Require Import List NArith.\nFrom BV Require Import Lib.PyStr Lib.Harness Model.Lexid.",
@@ -116,6 +117,45 @@ def run(rep, tier, seed, model_ok=True, effort=1):
     rep.exhaustive = True
     from . import libcorr
     libcorr.decimal_stream(rep, common.rng(seed, "c17-dec"), (200 if tier == "quick" else 3000) * effort, model_ok=model_ok)
+
+
+CLI_PATTERNS = [("vYYYY0M.BUILD[-TAG]", "v2021%02d.%s", r"^v\d{6}\.(\d+)"), ("YYYY.BUILD", "2021.%s", r"^\d{4}\.(\d+)$"), ("vMAJOR.MINOR.BUILD[-TAG[NUM]]", "v3.1.%s", r"^v\d+\.\d+\.(\d+)"),
+                ("BUILD.INC0", "%s.4", r"^(\d+)\.")]
+
+
+def cli_stream(rep, r, n):
+    """every successful bump through the CLI, whatever else it changes (date, tag, pinned increments, MAJOR ...), moves BUILD up"""
+    import re as _re
+    from . import impl
+    for _ in range(n):
+        pat, tmpl, rx = r.choice(CLI_PATTERNS)
+        bid = r.choice(["7", "42", "099", "0998", "1001", "1999", "22000", "0001", "9998", "10999", "899999", str(r.randrange(0, 99999))])
+        old = tmpl % ((r.randrange(1, 12), bid) if tmpl.count("%") == 2 else (bid,))
+        args = ["test", old, pat]
+        flags = []
+        if r.random() < 0.5:
+            flags.append("--pin-increments")
+        if "TAG" in pat and r.random() < 0.4:
+            flags += ["--tag", r.choice(["alpha", "beta", "rc", "post"])]
+        if "MAJOR" in pat and r.random() < 0.4:
+            flags.append(r.choice(["--major", "--minor"]))
+        if "YYYY" in pat:
+            flags += r.choice([["--pin-date"], ["--date", "2021-%02d-15" % r.randrange(1, 13)], ["--date", "2022-03-01"], []])
+        code, out, exc = impl.run_cli(args + flags)
+        new = impl.parse_new_version(out) if code == 0 else None
+        rep.case(("cli", pat, old, tuple(flags)), nontrivial=new is not None)
+        rep.count("cli-bumps")
+        inp = dict(args=args + flags, exit=code, new=new)
+        if set(bid) == {"9"}:
+            continue
+        if new is None:
+            rep.violation("`bumpver test` fails on a version whose BUILD is below the documented maximum", input=dict(inp, out=out[-200:]), **{"class": "bump-fails"})
+            continue
+        m = _re.search(rx, new)
+        if not m:
+            rep.violation("the new version does not carry a BUILD where the pattern has one", input=inp, **{"class": "no-build"})
+            continue
+        oracle(rep, bid, m.group(1), generated=False)
 
 
 def search(rep, tier, seed, effort=2):
